@@ -225,7 +225,27 @@ class _AttrGetter(Stub):
         return vals[0] if len(vals) == 1 else tuple(vals)
 
 
-MODULES = {"operator": ModuleTable({"methodcaller": _MethodCaller, "itemgetter": _ItemGetter, "attrgetter": _AttrGetter}),
+def _callable(x) -> bool:
+    return callable(x) or (isinstance(x, Stub) and hasattr(x, "_abs_call"))
+
+
+BUILTINS["callable"] = _callable
+BUILTINS["divmod"] = divmod
+BUILTINS["map"] = map
+BUILTINS["filter"] = filter
+
+
+def _reduce(f, xs, *init):
+    import functools
+    g = f._abs_call if isinstance(f, Stub) and hasattr(f, "_abs_call") else (f.f if isinstance(f, StubCall) else f)
+    return functools.reduce(g, xs, *init)
+
+
+_OPS = {n: getattr(operator, n) for n in ("add", "sub", "mul", "truediv", "floordiv", "mod", "neg", "pos", "not_", "and_", "or_", "xor", "eq", "ne", "lt", "le", "gt", "ge",
+                                          "iadd", "isub", "imul", "itruediv", "contains", "getitem", "is_", "is_not", "truth", "abs", "pow")}
+MODULES = {"operator": ModuleTable(dict(_OPS, methodcaller=_MethodCaller, itemgetter=_ItemGetter, attrgetter=_AttrGetter)),
+           "functools": ModuleTable({"reduce": StubCall(_reduce)}),
+           "types": ModuleTable({"MappingProxyType": StubCall(lambda d: dict(d))}),
            "collections": ModuleTable({"namedtuple": StubCall(_namedtuple)}), "itertools": ModuleTable({"product": itertools.product, "combinations": itertools.combinations, "chain": itertools.chain, "permutations": itertools.permutations})}
 _BIN = {ast.Add: operator.add, ast.Sub: operator.sub, ast.Mult: operator.mul, ast.Div: operator.truediv, ast.FloorDiv: operator.floordiv,
         ast.Mod: operator.mod, ast.Pow: operator.pow, ast.BitAnd: operator.and_, ast.BitOr: operator.or_, ast.BitXor: operator.xor}
